@@ -1,5 +1,6 @@
 // C03 — AsyncLoop start/stop/destroy protocol. Instrumented half.
 #include "rkcommon/tasking/AsyncLoop.h"
+#include "rkcommon/tasking/schedule.h"
 #include "../rt/sim_api.h"
 #include "c03.h"
 
@@ -11,6 +12,13 @@ extern "C" void c03_run()
   if (p->init_threads > 0) {
     SimTag t(SIM_TAG_INFRA);
     rkcommon::tasking::initTaskingSystem(p->init_threads);
+  }
+  if (p->busy_workers) {
+    // other long-running work (say, other task-launched loops) already holds every tasking thread
+    SimTag t(SIM_TAG_SUT);
+    for (int i = 0; i < p->init_threads; i++)
+      rkcommon::tasking::schedule([]() { c03_blocker(); });
+    c03_wait_blockers(p->init_threads - 1);
   }
   int cost = p->body_cost;
   AsyncLoop *loop;
@@ -95,11 +103,17 @@ extern "C" void c03_run()
     }
   }
   sim_phase(2);
+  if (p->busy_workers)
+    sim_set_fair(1);  // no faults from here on: the destructor has to return within the run's step budget
   {
     SimTag t(SIM_TAG_SUT);
     c03_ev(C03_DTOR_INVOKE);
     delete loop;
     c03_ev(C03_DTOR_RETURN);
+  }
+  if (p->busy_workers) {
+    sim_set_fair(0);
+    c03_release_blockers();
   }
   sim_phase(3);
   if (p->init_threads > 0) {
